@@ -449,8 +449,13 @@ pub fn check_against_model(d: &Dump, m: &crate::gen::Model, contents_readable: b
     };
     expect("open".into(), Leaf::Val("ok".into()));
     expect("check".into(), Leaf::Val("true".into()));
-    expect("pack_count".into(), Leaf::Val((m.n_packs as u64 + 1).to_string()));
+    expect("pack_count".into(), Leaf::Val((m.pack_ids().len() as u64 + 1).to_string()));
     for p in 1..=m.n_packs {
+        if m.is_absent(p) {
+            // an id the manifest does not list answers "no such pack"
+            expect(format!("pack[{p}]"), Leaf::Absent);
+            continue;
+        }
         if !contents_readable {
             break;
         }
